@@ -18,43 +18,42 @@ from vfreplay import split_root, implies_to_cpp, num
 GHOST_ARR = ('g_called', 'g_ok', 'g_len', 'g_ncalls')
 
 
-def stub_calls(trace):
-    """sequence of stub outcomes from the (slimmed) trace: one entry per assignment to g_last"""
-    st = {}
+def stub_calls(trace, k):
+    """sequence of stub outcomes from the (slimmed) trace.  A stub call shows as the havoc of its assigns targets in the order
+    ..., g_last, g_called[i] = 1, g_ok[i], g_len[i], ..., g_cur, ..., g_exc_obj: one entry per `g_last` that is followed by
+    g_called[i] = 1 (the initial nondeterministic state also assigns g_last once)"""
     calls = []
     cur = None
-
-    def val(v):
-        d = v.get('data') if isinstance(v, dict) else None
-        return d
-
     for s in trace or []:
         if s.get('stepType') != 'assignment':
             continue
         lhs = str(s.get('lhs', ''))
-        d = val(s.get('value', {}))
+        v = s.get('value') or {}
+        d = v.get('data') if isinstance(v, dict) else None
         if d is None:
             continue
         if lhs == 'g_last':
-            if cur is not None:
-                calls.append(cur)
-            cur = {'i': num(d), 'pos_before': num(st.get('g_pos_prev', st.get('g_pos'))), 'pos_after': num(st.get('g_pos')), 'exc0': num(st.get('g_exc_obj'))}
+            cur = {'i': num(d)}
+            calls.append(cur)
+            continue
+        if cur is None:
             continue
         m = re.match(r'(g_\w+)\[(\d+)l?\]$', lhs)
-        if m and cur is not None and int(m.group(2)) == cur['i']:
-            cur[m.group(1)] = num(d)
-        if lhs == 'g_pos':
-            st['g_pos_prev'] = st.get('g_pos')
-        st[lhs] = d
-        if lhs == 'g_exc_obj' and cur is not None:
-            cur['exc1'] = num(d)
-    if cur is not None:
-        calls.append(cur)
+        if m:
+            if int(m.group(2)) == cur['i'] and m.group(1) not in cur:
+                cur[m.group(1)] = num(d)
+        elif lhs in ('g_cur', 'g_exc_obj') and lhs not in cur:
+            cur[lhs] = num(d)
     out = []
+    pos = k
     for c in calls:
-        raised = c.get('exc1', c['exc0']) != 0 and c['exc0'] == 0
-        adv = max(0, c['pos_after'] - c['pos_before']) if c['pos_after'] is not None and c['pos_before'] is not None else 0
-        out.append({'i': c['i'], 'ok': bool(c.get('g_ok', 0)) and not raised, 'adv': adv if not raised else 0, 'raise': raised})
+        if c.get('g_called') != 1:
+            continue
+        raised = c.get('g_exc_obj', 0) != 0 and not any(o['raise'] for o in out)
+        after = c.get('g_cur', pos)
+        out.append({'i': c['i'], 'ok': bool(c.get('g_ok', 0)) and not raised, 'adv': max(0, after - pos) if not raised else 0, 'raise': raised})
+        if not raised:
+            pos = max(pos, after)
     return out
 
 
@@ -134,11 +133,11 @@ CLAUSE = r'''
 
 
 def comb_replay(job, rec, mod, info, res, trace):
-    script = stub_calls(trace)
     w = rec.get('witness') or {}
     if 'w_n' not in w:
         return {'reproduced': False, 'note': 'trace carries no witness'}
     n, k = num(w.get('w_n')), num(w.get('w_k'))
+    script = stub_calls(trace, k)
     tu = split_root(mod.tu(), job.root)
     if tu is None:
         return {'reproduced': False, 'note': 'root not found in TU'}
@@ -193,9 +192,21 @@ def comb_replay(job, rec, mod, info, res, trace):
     if want_call is not None:
         idx = len(script)
         if len(calls) > idx:
-            ci, ca, cm = int(calls[idx][0]), int(calls[idx][1]), int(calls[idx][2])
-            reproduced = (ci, ca, cm) == tuple(want_call)
-            how = 'after the scripted outcomes the real code calls R<%d> with apply_mode=%d rewind_mode=%d (offending call: R<%d>, %d, %d)' % (ci, ca, cm, want_call[0], want_call[1], want_call[2])
+            ci, ca, cm, cpos = int(calls[idx][0]), int(calls[idx][1]), int(calls[idx][2]), int(calls[idx][3])
+            same = (ci, ca, cm) == tuple(want_call)
+            tag = rec.get('tag', '')
+            g_turn, g_pos, g_done = num(w.get('g_turn'), -99), num(w.get('g_pos'), -1), num(w.get('g_done'))
+            if tag in ('stub-apply-mode', 'stub-rewind-mode', 'stub-unexpected-subrule') or tag.startswith('stub-called-with'):
+                breach = True          # the instantiation itself (sub-rule index / apply mode / rewind mode / classes) is what the contract forbids
+            elif tag == 'stub-order-and-position':
+                breach = (g_turn != ci) or (cpos != g_pos) or (g_done != 0)     # automaton state after the scripted outcomes vs. the call the real code makes
+            elif tag == 'stub-at-entry-iterator':
+                breach = cpos != k
+            else:
+                breach = None
+            reproduced = bool(same and breach)
+            how = 'after the scripted outcomes the real code calls R<%d> with apply_mode=%d rewind_mode=%d at offset %d (offending call of the counterexample: R<%d>, %d, %d; automaton expects turn %d at offset %d)%s' % (
+                ci, ca, cm, cpos, want_call[0], want_call[1], want_call[2], g_turn, g_pos, '' if breach is not None else '; precondition kind %s has no native criterion' % tag)
         else:
             how = 'the real code made no further call after the scripted outcomes'
     else:
